@@ -213,7 +213,7 @@ def space(nv):
 
 
 # ---- purification RBM / density matrix -------------------------------------------------------
-def random_purif_point(rng, nvmax=4, nhmax=4, namax=4, budget=1700, small=False, extreme=False, huge=False):
+def random_purif_point(rng, nvmax=4, nhmax=4, namax=4, budget=1700, small=False, extreme=False, huge=False, strong=False):
     if huge:       # see random_point: diagonal entries of rho up to e^200 .. e^330
         pt = random_purif_point(rng, min(3, nvmax), 1, 1, budget, small=True)
         while pt["nv"] < 2:
@@ -230,7 +230,7 @@ def random_purif_point(rng, nvmax=4, nhmax=4, namax=4, budget=1700, small=False,
         m = max(2, min(top, (budget - 3 * (npar - pt["nv"])) // pt["nv"]))
         pt["b"] = [-rng.randint(max(1, (2 * m) // 3), m) for _ in range(pt["nv"])]
         return pt
-    if not small and rng.random() < 0.04:
+    if strong and not small and rng.random() < 0.04:
         # strong mixing: every auxiliary unit pulls the same way with a large coupling, so that the auxiliary
         # factor of rho is huge (Re Pi of several hundred) while every entry stays representable
         nv, nh, na, B = 4, 1, 3, 3
